@@ -47,6 +47,9 @@ def run(db, rep, tier):
     r9(db, rep)
     from rules import c04_opts
     c04_opts.run(db, rep)
+    rep.rule("R11-rebuilt-and-counted", "DHCP rebuilds its option area from the option list on every serialisation (no size-based cache "
+                                        "test); RSNInformation writes, in front of each suite list, that list's own element count", 3)
+    r11(db, rep)
     rep.explanation = ("Structural part of C04: item-level agreement of typed option encoders and decoders (R1), one code per accessor pair (R2), "
                        "cached sizes follow add/remove (R3), first-match lookup and exact removal (R4), one storage predicate in PDUOption (R5). "
                        "NOT decided: the shadow-model clause over arbitrary edit histories, computed length bytes (IPv6 length_field()/8, DNS "
@@ -689,3 +692,65 @@ def r9(db, rep):
         rep.ok("R9-skip-agreement", key, facts.loc(mfs[0]), "equals Dot11ManagementFrame::header_size() on every cell; used by %d subtype parsers" % users)
     if users < 8:
         rep.analysis_broken("only %d management subtype parsers use management_frame_size()" % users)
+
+
+def r11(db, rep):
+    from vlib import cfg, cond
+    # DHCP: the vend area is derived from options_ whenever there are options
+    fs = [f for f in db.fns_named("Tins::DHCP::write_serialization") if f.get("body")]
+    if not fs:
+        rep.analysis_broken("DHCP::write_serialization vanished")
+    else:
+        f = fs[0]
+        g = cfg.FnCFG(f)
+        loops = [x for x in facts.fn_nodes(f) if x["k"] in ("ForStmt", "WhileStmt", "CXXForRangeStmt") and "options_" in facts.expr_str(x)]
+        key = "DHCP::write_serialization:rebuild"
+        if not loops:
+            rep.violation("R11-rebuilt-and-counted", key, facts.loc(f), "the option area is no longer written from options_")
+        else:
+            inner = [y for y in facts.walk(loops[0]) if y["k"] == "CXXMemberCallExpr" and y.get("cname") == "write"]
+            pos = g.pos(inner[0]) if inner else g.pos(loops[0])
+            bad = None
+            for op, l, r in cond.guards_facts(g, pos):
+                t = facts.expr_str(l) + " " + (facts.expr_str(r) if r is not None else "")
+                if "it" in t.split() or "(it " in t or "options_" in t:
+                    continue        # the loop's own condition
+                if "size()" in t or "vend" in t or "result" in t:
+                    bad = "%s %s %s" % (facts.expr_str(l), op, facts.expr_str(r) if r is not None else "")
+            if bad:
+                rep.violation("R11-rebuilt-and-counted", key, facts.loc(f, loops[0]),
+                              "the option area is rewritten only when `%s`: equal size does not mean equal content, so after an edit that "
+                              "keeps the total size the wire still carries the old options" % bad)
+            else:
+                rep.ok("R11-rebuilt-and-counted", key, facts.loc(f, loops[0]), "rewritten from options_ whenever there are options")
+    # RSNInformation: count in front of each list
+    fs = [f for f in db.fns_named("Tins::RSNInformation::serialize") if f.get("body")]
+    if not fs:
+        rep.analysis_broken("RSNInformation::serialize vanished")
+        return
+    f = fs[0]
+    top = f["body"].get("c", [])
+    n = 0
+    for i, st in enumerate(top):
+        if st["k"] not in ("ForStmt", "CXXForRangeStmt"):
+            continue
+        conts = set(y.get("member") for y in facts.walk(st["c"][0] if st["c"][0] is not None else st) if y["k"] == "MemberExpr" and y.get("isfield"))
+        conts = [c for c in conts if c]
+        if not conts or i == 0:
+            continue
+        prev = top[i - 1]
+        w = [y for y in facts.walk(prev) if y["k"] == "CXXMemberCallExpr" and y.get("cname") in ("write", "write_le", "write_be")]
+        if not w:
+            continue
+        n += 1
+        key = "RSNInformation::serialize:count-of-%s" % conts[0]
+        arg = facts.inline_locals(f, w[0]["c"][1])
+        t = facts.expr_str(arg)
+        if ("%s.size()" % conts[0]) in t:
+            rep.ok("R11-rebuilt-and-counted", key, facts.loc(f, prev), "`%s` precedes the elements of %s" % (t[:60], conts[0]))
+        else:
+            rep.violation("R11-rebuilt-and-counted", key, facts.loc(f, prev),
+                          "the count written in front of the %s list is `%s`, not %s.size(): with lists of different lengths the decoder "
+                          "reads the wrong number of suites" % (conts[0], t[:70], conts[0]))
+    if n < 2:
+        rep.analysis_broken("RSNInformation::serialize: the two (count, list) pairs were not recognised (%d)" % n)
